@@ -395,6 +395,7 @@ def _blockify(check: Check):
   ok_ctor = all([M, NB, MB, BLK]) and isinstance(kw.get('client_input'), ast.ListComp) and txt(kw['client_input'].generators[0].iter) == BLK
   check.ob('R-MASK.blockify-ctor', fi, txt(ctor)[:90], ok_ctor,
            'the block carries the client ids / inputs of the padded client list and the masks and counts computed for it')
+  _padding_templates(check, fi, ff)
   if not ok_ctor:
     return
 
@@ -489,6 +490,75 @@ def _blockify(check: Check):
   check.ob('R-MASK.blockify-counts', fi, f'{NB} / block length', ok_n and (uses_max or (uses_first and sort_desc)),
            f'{NB} counts real batches of every slot after client padding (ok={ok_n}); the block length is the maximum '
            f'(first element of a descending sort: {uses_first and sort_desc}; max(): {uses_max})')
+
+
+ZEROS_LIKE = {'jax.numpy.zeros_like', 'numpy.zeros_like'}
+ZEROS = {'jax.numpy.zeros', 'numpy.zeros', 'jax.numpy.full', 'numpy.full', 'jax.numpy.empty', 'numpy.empty'}
+
+
+def _padding_templates(check: Check, fi: FuncInfo, ff: FuncFlow):
+  """Padding values keep the dtype of what they pad (they are stacked with real values); templates are only taken from a
+  non-empty collection."""
+  n = 0
+  for _, c in ff.calls():
+    if ff.ext(c.func) not in ('jax.tree_util.tree_map', 'jax.tree_map') or len(c.args) != 2:
+      continue
+    f = c.args[0]
+    verdict = None
+    if ff.ext(f) in ZEROS_LIKE:
+      verdict = True
+    elif isinstance(f, ast.Lambda) and len(f.args.args) == 1:
+      p = f.args.args[0].arg
+      b = f.body
+      if isinstance(b, ast.Call) and ff.ext(b.func) in ZEROS_LIKE and b.args and isinstance(b.args[0], ast.Name) and b.args[0].id == p:
+        verdict = True
+      elif isinstance(b, ast.Call) and ff.ext(b.func) in ZEROS:
+        dt = [k.value for k in b.keywords if k.arg == 'dtype'] + list(b.args[1:2] if ff.ext(b.func).endswith(('zeros', 'empty')) else b.args[2:3])
+        verdict = any(isinstance(x, ast.Attribute) and x.attr == 'dtype' and isinstance(x.value, ast.Name) and x.value.id == p
+                      for d in dt for x in ast.walk(d))
+    if verdict is None:
+      continue
+    n += 1
+    check.ob('R-MASK.pad-dtype', fi, txt(c)[:80], verdict,
+             'a padding value is stacked with the real values of the block: it must have the template\'s dtype (zeros_like), otherwise '
+             'integer batches are silently promoted to float on the pmap backend only', node=c)
+  check.floor('R-MASK.pad-dtype', 'padding templates in _blockify', n, 1)
+  # [0] / [-1] on the client list itself needs a non-empty list: inside the per-block loop or under a guard
+  p0 = fi.positional_params[0]
+  def is_clients(e):
+    if not isinstance(e, ast.Name):
+      return False
+    if ff.param_of(e) == p0:
+      return True
+    for d in ff.defs_for(e):
+      v = d.value
+      if v is not None and any(isinstance(x, ast.Name) and x.id == p0 for x in ast.walk(v)) and isinstance(v, (ast.ListComp, ast.Call)):
+        return True
+    return False
+  for nd in ff.cfg.nodes:
+    if nd.ast is None:
+      continue
+    for x in nd.walk():
+      if isinstance(x, ast.Subscript) and isinstance(x.slice, (ast.Constant, ast.UnaryOp)) and is_clients(x.value):
+        try:
+          idx = ast.literal_eval(x.slice)
+        except Exception:  # pylint: disable=broad-except
+          continue
+        if not isinstance(idx, int):
+          continue
+        lp = wmean._loop_of(ff, x)
+        in_block_loop = False
+        while lp is not None:
+          if isinstance(lp, ast.For) and any(isinstance(y, ast.Call) and ff.ext(y.func) == 'builtins.len' and y.args and is_clients(y.args[0])
+                                             for y in ast.walk(lp.iter)):
+            in_block_loop = True
+          if isinstance(lp, ast.For) and is_clients(lp.iter):
+            in_block_loop = True
+          lp = wmean._loop_of(ff, lp)
+        guarded = any(pol and any(is_clients(y) for y in ast.walk(t)) for t, pol in guards_of(ff, x))
+        check.ob('R-EMPTY', fi, txt(x), in_block_loop or guarded,
+                 f'`{txt(x)}` needs at least one client: outside the per-block loop and without an emptiness guard, an empty client '
+                 'collection raises IndexError on this backend only', node=x)
 
 
 def _is_real_batch_test(test: ast.AST, pol: bool) -> Optional[bool]:
